@@ -159,7 +159,8 @@ class World(object):
         self.nd = 0; self.dfr = {}          # handle -> [deferred, status]
         self.addrs = []
         self.lines = []
-        self.meta = meta or {}
+        self.meta = dict(meta or {})
+        self.depth = 0; self.cur = None; self.segments = 0; self.reactions = {}
 
     # ------------------------------------------------------------------ recording
     def emit(self, stim):
@@ -175,6 +176,58 @@ class World(object):
         if self.out is not None:
             self.out.write(json.dumps(line, separators=(",", ":")) + "\n")
         return line
+
+    # ------------------------------------------------------------------ stage 3: API calls made from inside callbacks
+    # A stimulus during which the application calls back into the API is recorded as several lines:
+    #   <stimulus, "part": 1>  effects up to the callback      (the stimulus is not finished)
+    #   <the nested call, "nested": 1>  with its own effects
+    #   <"op": "cont", "of": <op>, "orig": <stimulus>>  the remaining effects  ("part": 1 again if another callback reacts)
+    def run(self, stim, fn):
+        if self.depth > 0:                       # a nested call: one complete line of its own
+            stim = dict(stim, nested=1)
+            self.depth += 1
+            try:
+                self.guard(fn)
+            finally:
+                self.depth -= 1
+            return self.emit(stim)
+        self.cur = stim; self.segments = 0; self.depth = 1
+        try:
+            self.guard(fn)
+        finally:
+            self.depth = 0
+        if self.segments:
+            return self.emit(self._cont(stim))
+        return self.emit(stim)
+
+    @staticmethod
+    def _cont(stim):
+        c = {"op": "cont", "of": stim["op"], "orig": stim}
+        if "a" in stim:
+            c["a"] = stim["a"]
+        return c
+
+    def react(self, key):
+        """called by the recording callbacks right after they recorded their effect"""
+        acts = self.reactions.pop(key, None)
+        if not acts or self.depth != 1:
+            return
+        # close the current segment of the enclosing stimulus
+        if self.segments == 0:
+            self.emit(dict(self.cur, part=1))
+        else:
+            self.emit(dict(self._cont(self.cur), part=1))
+        self.segments += 1
+        for act in acts:
+            act()
+
+    def on_deferred(self, h, when, act):
+        self.reactions.setdefault(("d", h, when), []).append(act)
+        self.meta["reactive"] = 1
+
+    def on_cb(self, a, name, act):
+        self.reactions.setdefault(("cb", a, name), []).append(act)
+        self.meta["reactive"] = 1
 
     def guard(self, fn):
         try:
@@ -192,11 +245,13 @@ class World(object):
         def ok(v, h=h):
             self.dfr[h][1] = "ok"
             self.fx.append({"k": "fire", "d": h, "ok": 1, "val": enc_val(v)})
+            self.react(("d", h, "ok"))
             return "result-of-the-application-callback"     # applications are free to return something: the Deferred is theirs
 
         def ko(f, h=h):
             self.dfr[h][1] = "fail"
             self.fx.append(dict({"k": "fire", "d": h, "ok": 0}, **exc_info(f.value)))
+            self.react(("d", h, "fail"))
         d.addCallbacks(ok, ko)
         self.fx.append({"k": "ret", "d": h, "mid": mid if isinstance(mid, int) else -1})
         return h
@@ -208,16 +263,19 @@ class World(object):
                             "payload": list(payload) if isinstance(payload, (bytes, bytearray)) else [-1],
                             "qos": int(qos), "dup": 1 if dup else 0, "retain": 1 if retain else 0,
                             "id": msgId if isinstance(msgId, int) else -1})
+            self.react(("cb", a, "onPublish"))
         return app_onPublish
 
     def _on_disc(self, a, g):
         def app_onDisconnection(reason):
             self.fx.append({"k": "cb", "a": a, "g": g, "name": "onDisconnection", "reason": type(reason.value).__name__})
+            self.react(("cb", a, "onDisconnection"))
         return app_onDisconnection
 
     def _on_made(self, a):
         def app_onMqttConnectionMade():
             self.fx.append({"k": "cb", "a": a, "name": "onMqttConnectionMade"})
+            self.react(("cb", a, "onMqttConnectionMade"))
         return app_onMqttConnectionMade
 
     # ------------------------------------------------------------------ stimuli
@@ -255,37 +313,31 @@ class World(object):
         def go():
             d = self.p[a].connect(clientId, keepalive=keepalive, cleanStart=cleanStart, version=ver, **kw)
             self.track(d)
-        self.guard(go)
         stim = {"op": "connect", "a": a, "cid": jval(clientId), "ka": jval(keepalive), "clean": 1 if cleanStart else 0,
                 "ver": version if version in (3, 4) else 0,
                 "wtopic": jval(kw.get("willTopic")), "wmsg": jval(kw.get("willMessage")), "wqos": jval(kw.get("willQoS", 0)),
                 "wretain": 1 if kw.get("willRetain") else 0, "uname": jval(kw.get("username")), "pwd": jval(kw.get("password"))}
-        return self.emit(stim)
+        return self.run(stim, go)
 
     def disconnect(self, a):
-        self.guard(lambda: self.p[a].disconnect())
-        return self.emit({"op": "disconnect", "a": a})
+        return self.run({"op": "disconnect", "a": a}, lambda: self.p[a].disconnect())
 
     def publish(self, a, topic, msg, qos=0, retain=False):
-        self.guard(lambda: self.track(self.p[a].publish(topic, msg, qos=qos, retain=retain)))
-        return self.emit({"op": "publish", "a": a, "topic": jval(topic), "payload": jpayload(msg), "qos": jval(qos), "retain": 1 if retain else 0})
+        return self.run({"op": "publish", "a": a, "topic": jval(topic), "payload": jpayload(msg), "qos": jval(qos), "retain": 1 if retain else 0},
+                        lambda: self.track(self.p[a].publish(topic, msg, qos=qos, retain=retain)))
 
     def subscribe(self, a, topics, qos=0):
-        self.guard(lambda: self.track(self.p[a].subscribe(topics, qos)))
-        return self.emit({"op": "subscribe", "a": a, "arg": jtopics(topics), "qos": jval(qos)})
+        return self.run({"op": "subscribe", "a": a, "arg": jtopics(topics), "qos": jval(qos)}, lambda: self.track(self.p[a].subscribe(topics, qos)))
 
     def unsubscribe(self, a, topics):
-        self.guard(lambda: self.track(self.p[a].unsubscribe(topics)))
-        return self.emit({"op": "unsubscribe", "a": a, "arg": jtopics(topics)})
+        return self.run({"op": "unsubscribe", "a": a, "arg": jtopics(topics)}, lambda: self.track(self.p[a].unsubscribe(topics)))
 
     def recv(self, a, b):
-        self.guard(lambda: self.p[a].dataReceived(bytes(b)))
-        return self.emit({"op": "recv", "a": a, "g": self.gen[a], "bytes": list(b)})
+        return self.run({"op": "recv", "a": a, "g": self.gen[a], "bytes": list(b)}, lambda: self.p[a].dataReceived(bytes(b)))
 
     def fire(self, dc):
         """run pending call dc (it must have the earliest deadline); time jumps to its deadline"""
-        self.guard(lambda: clock.fire(dc))
-        return self.emit({"op": "fire", "tm": dc.vid})
+        return self.run({"op": "fire", "tm": dc.vid}, lambda: clock.fire(dc))
 
     def pokeid(self, n):
         """test-only placement of the factory's identifier counter (C17 names this placement)"""
@@ -299,8 +351,7 @@ class World(object):
     def lost(self, a, reason="done"):
         self.t[a].phase = "lost"
         exc = error.ConnectionDone() if reason == "done" else error.ConnectionLost()
-        self.guard(lambda: self.p[a].connectionLost(failure.Failure(exc)))
-        return self.emit({"op": "lost", "a": a, "g": self.gen[a], "reason": type(exc).__name__})
+        return self.run({"op": "lost", "a": a, "g": self.gen[a], "reason": type(exc).__name__}, lambda: self.p[a].connectionLost(failure.Failure(exc)))
 
     # ------------------------------------------------------------------ helpers for drivers (no judgement)
     def due(self):
